@@ -56,6 +56,8 @@ def do_op(env, drv, op, sc, ref):
     if k == "read":
         return harness.call(sim, drv.read, op["text"])
     if k == "write":
+        if sc["driver"].get("cls") == "SLCDriver":
+            return harness.call(sim, drv.write, (op["text"], op["value"]))
         return harness.call(sim, drv.write, op["text"], op["value"])
     if k == "generic":
         kw = dict(service=op.get("service", 0x0E), class_code=op.get("cls", 0x300), instance=1,
@@ -230,6 +232,10 @@ def run(sc):
                     if good and k == "read" and ref is not None:
                         name, val, tstr = ref.expect_read(sc["epilogue_ast"], env.ctl.mem)
                         good = values_equal(res.value, val)
+                    if k == "read" and sc.get("epilogue_slc"):
+                        import struct as _st
+                        want = _st.unpack_from("<h", env.entry.files[7]["data"], 2)[0]
+                        good = outcome == "ok" and res.error is None and res.value == want
                     if good and k == "generic":
                         good = res.value == b"\x2a\x00\x00\x00"
                     if not good:
@@ -301,7 +307,7 @@ def count_io(sc):
 
 # ---------------------------------------------------------------------------
 def gen_base(r, tier, prop):
-    dcls = r.choice(("LogixDriver", "LogixDriver", "CIPDriver"))
+    dcls = r.choice(("LogixDriver", "LogixDriver", "CIPDriver", "SLCDriver"))
     pol = dict(r.choice(POLICIES))
     if dcls == "LogixDriver":
         project = worldgen.light_project(r)
@@ -327,6 +333,15 @@ def gen_base(r, tier, prop):
                 and t["type"] in ("SINT", "INT", "DINT", "LINT", "REAL", "UDINT", "UINT", "USINT", "ULINT", "LREAL")]
         driver = {"cls": "LogixDriver", "path": path, "init_tags": True if tags else r.random() < 0.7,
                   "init_program_tags": r.random() < 0.5, "log": "off", "seq_advance": r.choice((0, 0, 65530))}
+    elif dcls == "SLCDriver":
+        table = {"7": {"type": "N", "data": bytes(r.randrange(256) for _ in range(40)).hex()},
+                 "3": {"type": "B", "data": bytes(r.randrange(256) for _ in range(16)).hex()}}
+        world = {"layout": "slc", "ip": "10.0.0.1", "project": None, "policy": pol, "table": table,
+                 "choices": {"handles": r.choice(("random32", "small"))}}
+        driver = {"cls": "SLCDriver", "path": r.choice(("10.0.0.1", "10.0.0.1/0")), "log": "off",
+                  "seq_advance": r.choice((0, 0, 65530))}
+        tags = []
+        ref = None
     else:
         world = {"layout": "cip", "ip": "10.0.0.1", "project": None, "policy": pol,
                  "choices": {"handles": r.choice(("random32", "small"))}}
@@ -347,6 +362,10 @@ def gen_base(r, tier, prop):
     kinds = ["open", "close", "generic_c", "generic_u", "generic_us", "with_ok", "with_raise", "idle"]
     if tags:
         kinds += ["read", "read", "write"]
+    if dcls == "SLCDriver":
+        kinds = ["open", "close", "slc_read", "slc_read", "slc_write", "with_ok", "with_raise", "idle", "generic_u"]
+        sc["epilogue_text"] = "N7:1"
+        sc["epilogue_slc"] = True
     state_open = False
     for i in range(n):
         c = r.random()
@@ -371,6 +390,10 @@ def gen_base(r, tier, prop):
                 from .. import reqgen
                 ops.append({"id": oid, "kind": "write", "text": render(ast)[0],
                             "value": reqgen.gen_value(r, ref, t["type"])})
+        elif k == "slc_read":
+            ops.append({"id": oid, "kind": "read", "text": r.choice(("N7:0", "N7:3{4}", "B3/9", "N7:19"))})
+        elif k == "slc_write":
+            ops.append({"id": oid, "kind": "write", "text": r.choice(("N7:0", "N7:5", "N7:19")), "value": r.randrange(-32768, 32768)})
         elif k.startswith("generic"):
             mode = {"generic_c": "connected", "generic_u": "unconnected", "generic_us": "unconnected_send"}[k]
             if mode == "unconnected_send" and (dcls == "CIPDriver" or sc["world"]["layout"] == "micro800"):
